@@ -277,6 +277,9 @@ partial def showExpr (E : Env) (n : Names) (root : Nat) : GoExpr → Bytes
       commaSep (ents.map fun (i, e) => n.field file sn i ++ a ":" ++ showExpr E n root e) ++ a "}"
   | .addr e => a "&" ++ showExpr E n root e
   | .ptrTrick ty e => a "(&struct{x" ++ showTy n root ty ++ a "}{" ++ showExpr E n root e ++ a "}).x"
+  | .unamp e => (showExpr E n root e).drop 1
+  | .star e => a "*" ++ showExpr E n root e
+  | .strConv e => a "string(" ++ showExpr E n root e ++ a ")"
 
 def textOut (b : Bytes) : String := VL.hexEncode b
 
@@ -309,9 +312,9 @@ def unitVerdict (E : Env) : String :=
     | some fe =>
       let ds := fe.structs.flatMap fun st => st.fields.filterMap fun f =>
         match f.dflt with
-        | some d => some (resTag (resolveConst E i i f.ty d))
+        | some d => some (resTag (resolveConst E i i i f.ty d))
         | none => none
-      let cs := fe.consts.map fun c => resTag (resolveConst E i i c.ty c.val)
+      let cs := fe.consts.map fun c => resTag (resolveConst E i i i c.ty c.val)
       ds ++ cs
   match all.find? (· != "accept") with
   | some v => v
@@ -374,7 +377,7 @@ def step (s : St) (line : String) : St × String :=
           | some f, some name =>
               let x := s.unit u
               match x.env.findConst f name with
-              | some c => match resolveConst x.env f f c.ty c.val with
+              | some c => match resolveConst x.env f f f c.ty c.val with
                 | .ok e => (s, "ok " ++ textOut (showExpr x.env x.names f e))
                 | .err => (s, "reject")
                 | .panic => (s, "panic")
@@ -386,7 +389,7 @@ def step (s : St) (line : String) : St × String :=
               let x := s.unit u
               match (x.env.findStruct f sname).bind (·.fields[j]?) with
               | some fd => match fd.dflt with
-                | some d => match resolveConst x.env f f fd.ty d with
+                | some d => match resolveConst x.env f f f fd.ty d with
                   | .ok e => (s, "ok " ++ textOut (showExpr x.env x.names f e))
                   | .err => (s, "reject")
                   | .panic => (s, "panic")
@@ -414,6 +417,16 @@ def step (s : St) (line : String) : St × String :=
                 let P' := progOf (s.unit u) P
                 match P'.struct? i with
                 | some sd => (s, "ok" ++ showGetters P' sd.fields vs)
+                | none => (s, "bad-op")
+            | _, _ => (s, "bad-op")
+          | none => (s, "bad-op")
+      | "A" :: key :: rest =>
+          match splitKey key with
+          | some (u, i) => match s.progs.get u, parseVal rest with
+            | some P, some (.strct vs, []) =>
+                let P' := progOf (s.unit u) P
+                match P'.struct? i with
+                | some sd => (s, "ok " ++ showVal P' (.struct i) (initDefault sd (zeroStruct sd)) ++ " | ok" ++ showGetters P' sd.fields vs)
                 | none => (s, "bad-op")
             | _, _ => (s, "bad-op")
           | none => (s, "bad-op")
